@@ -120,7 +120,7 @@ FACTORS = [
     ("n_max_steps", [None, 2]),
     ("eval", ["scalar", "vec", "blobs"]),
     ("pool", [None, 1, "obj", 2]),
-    ("boundary", ["none", "per0", "ref1", "per0ref1"]),
+    ("boundary", ["none", "per0", "ref1", "per0ref1", "empty", "tuples"]),
     ("save_every", [None, 1, 3]),
     ("output_label", [None, "x"]),
     ("target", ["gauss", "bimodal", "unequal"]),
@@ -176,6 +176,26 @@ def _attempt(row, base):
         assert len(out) == 3 and np.isfinite(ev[0])
     except Exception as e:
         return ("posterior", e, p)
+    # the sampler stays usable after run(): one more iteration, and a further run() with a larger target, must not raise
+    q = p
+    q.exc = None
+    q.completed = False
+    q.cfg = dict(q.cfg, n_total=int(1.5 * q.cfg["n_total"]))
+    try:
+        from mc import pipeline as _pl
+        prev = _pl._ACTIVE
+        _pl._ACTIVE = q
+        try:
+            with env.quiet(), _pl.instrumented(), q.tape, q._mount():
+                q.sampler.sample()
+                q.sampler.run(n_total=q.cfg["n_total"], progress=False)
+        finally:
+            _pl._ACTIVE = prev
+    except Exception as e:
+        return ("reuse-after-run", e, q)
+    errs = terminal_errors(q)
+    if errs:
+        return ("reuse-post", errs, q)
     if fs is not None and not any(k.endswith("_final.state") for k in fs.files):
         return ("post", [("post:no-final-checkpoint", f"save_every={row['save_every']} but no final checkpoint was written: {sorted(fs.files)}")], p)
     if fs is not None:
@@ -196,7 +216,7 @@ def _attempt(row, base):
 
 def _sig(fail):
     stage, what, _ = fail
-    if stage in ("post", "resume-post"):
+    if stage in ("post", "resume-post", "reuse-post"):
         return f"{stage}:{what[0][0]}"
     return f"{stage}:{type(what).__name__}"
 
